@@ -176,6 +176,12 @@ func c02Value(code string) (starlark.Value, error) {
 		return starlark.String("a\xff\xfe\xc0b\xed\xa0\x80"), nil
 	case "s_fmt":
 		return starlark.String("{}%s{0}%d{a}%%{"), nil
+	case "s_fmt63":
+		return starlark.String("{9223372036854775808}"), nil
+	case "s_fmt19":
+		return starlark.String("{9999999999999999999}"), nil
+	case "s_fmt20":
+		return starlark.String("{18446744073709551616}"), nil
 	case "b_empty":
 		return starlark.Bytes(""), nil
 	case "b_ab":
